@@ -12,7 +12,38 @@ import (
 
 // ---------------------------------------------------------------- strings
 
+// mat reads an aliasing string (util.ByteToStringUnsafe under the model "unsafe-string-alias") from
+// the bytes it shares, as they are now.
+func (in *Interp) mat(x *Str) *Str {
+	if x.A == nil {
+		return x
+	}
+	if x.A.Len == 0 {
+		return &Str{}
+	}
+	arr := in.load(in.curState, x.A.Arr).(*Agg)
+	out := &Str{B: make([]*term.Term, x.A.Len)}
+	allc := true
+	for i := 0; i < x.A.Len; i++ {
+		out.B[i] = arr.Elems[x.A.Off+i].(*term.Term)
+		if !out.B[i].IsConst() {
+			allc = false
+		}
+	}
+	if allc {
+		bs := make([]byte, len(out.B))
+		for i, b := range out.B {
+			bs[i] = byte(b.Val)
+		}
+		return &Str{S: string(bs)}
+	}
+	return out
+}
+
 func (in *Interp) strLen(x *Str) int {
+	if x.A != nil {
+		return x.A.Len
+	}
 	if x.B != nil {
 		return len(x.B)
 	}
@@ -20,6 +51,7 @@ func (in *Interp) strLen(x *Str) int {
 }
 
 func (in *Interp) strBytes(x *Str) []*term.Term {
+	x = in.mat(x)
 	if x.B != nil {
 		return x.B
 	}
@@ -32,7 +64,7 @@ func (in *Interp) strBytes(x *Str) []*term.Term {
 
 // norm turns an all-constant symbolic string into a concrete one.
 func (in *Interp) norm(x *Str) *Str {
-	if x.B == nil {
+	if x.A != nil || x.B == nil {
 		return x
 	}
 	bs := make([]byte, len(x.B))
@@ -46,6 +78,7 @@ func (in *Interp) norm(x *Str) *Str {
 }
 
 func (in *Interp) strConcat(a, b *Str) *Str {
+	a, b = in.mat(a), in.mat(b)
 	if a.B == nil && b.B == nil {
 		return &Str{S: a.S + b.S}
 	}
@@ -59,6 +92,9 @@ func (in *Interp) strConcat(a, b *Str) *Str {
 }
 
 func (in *Interp) substr(a *Str, lo, hi int) *Str {
+	if a.A != nil { // a substring of an aliasing string aliases too
+		return &Str{A: &Slice{Arr: a.A.Arr, Off: a.A.Off + lo, Len: hi - lo, Cap: hi - lo}}
+	}
 	if a.B == nil {
 		return &Str{S: a.S[lo:hi]}
 	}
@@ -72,6 +108,7 @@ func (in *Interp) strEq(a, b *Str) *term.Term {
 	if in.strLen(a) != in.strLen(b) {
 		return in.ts.BoolC(false)
 	}
+	a, b = in.mat(a), in.mat(b)
 	if a.B == nil && b.B == nil {
 		return in.ts.BoolC(a.S == b.S)
 	}
@@ -85,6 +122,7 @@ func (in *Interp) strEq(a, b *Str) *term.Term {
 
 // strLess: a < b (or a <= b) lexicographically, as a term.
 func (in *Interp) strLess(a, b *Str, orEq bool) *term.Term {
+	a, b = in.mat(a), in.mat(b)
 	if a.B == nil && b.B == nil {
 		if orEq {
 			return in.ts.BoolC(a.S <= b.S)
@@ -122,6 +160,7 @@ func (in *Interp) sliceToStr(s *State, sl *Slice) *Str {
 }
 
 func (in *Interp) strIndex(s *State, f *Frame, x ssa.Value, str *Str, index ssa.Value) []*State {
+	str = in.mat(str)
 	idx := in.ts.Resize(in.get(s, f, index).(*term.Term), 64, isSigned(index.Type()))
 	n := in.strLen(str)
 	if idx.IsConst() {
@@ -277,7 +316,7 @@ func (in *Interp) mapLen(s *State, m *MapRef) int {
 func (in *Interp) rangeInstr(s *State, f *Frame, x *ssa.Range) {
 	switch b := in.get(s, f, x.X).(type) {
 	case *Str:
-		f.set(x, &Iter{Obj: in.alloc(s, &IterData{Str: b}).Obj})
+		f.set(x, &Iter{Obj: in.alloc(s, &IterData{Str: in.mat(b)}).Obj})
 	case *MapRef:
 		it := &IterData{}
 		if b.Obj >= 0 {
